@@ -47,6 +47,41 @@ pub enum MapOp {
     SetupWriteExpect { t: u8 },
     SetupOptionRead { t: u8 },
     ExecWrite { t: u8 },
+    /// `exec` / `setup` with a hand-written `SystemData` whose setup and fetch report every call;
+    /// `declared`: whether its `reads()` names the resource its setup provides
+    ExecProbe { t: u8, declared: bool },
+    SetupProbe { t: u8, declared: bool },
+}
+
+thread_local! {
+    /// 1 = Prober::setup, 2 = Prober::fetch, in call order
+    static PROBE_LOG: std::cell::RefCell<Vec<u8>> = const { std::cell::RefCell::new(Vec::new()) };
+}
+
+/// user-written system data: its setup inserts a default `T` if there is none
+pub struct Prober<T, const DECL: bool>(bool, std::marker::PhantomData<T>);
+
+impl<'a, T: Tracked + Default, const DECL: bool> shred::SystemData<'a> for Prober<T, DECL> {
+    fn setup(world: &mut World) {
+        PROBE_LOG.with(|l| l.borrow_mut().push(1));
+        if !world.has_value::<T>() {
+            world.insert(T::default());
+        }
+    }
+    fn fetch(world: &'a World) -> Self {
+        PROBE_LOG.with(|l| l.borrow_mut().push(2));
+        Prober(world.has_value::<T>(), std::marker::PhantomData)
+    }
+    fn reads() -> Vec<shred::ResourceId> {
+        if DECL {
+            vec![shred::ResourceId::new::<T>()]
+        } else {
+            vec![]
+        }
+    }
+    fn writes() -> Vec<shred::ResourceId> {
+        vec![]
+    }
 }
 
 pub struct C09;
@@ -205,7 +240,7 @@ impl Prop for C09 {
         "C09"
     }
     fn rule(&self) -> &'static str {
-        "histories (<= 40 steps) over insert / insert_by_id / remove / remove_by_id / entry().or_insert(_with) / has_value(_raw) / get_mut(_raw) / fetch, fetch_mut, try_fetch(_mut), try_fetch(_mut)_by_id / setup::<Read|WriteExpect|Option<Read>> / exec over 5 value types (zero-sized, 1 byte, 8 bytes, 512 bytes, heap-owning) x 3 dynamic ids, 1/4 of the id-taking calls with a type argument that disagrees with the id; oracle: reference BTreeMap<(type, dynamic id), value id>; every result equal; a mismatching id-taking call panics and leaves map and live set unchanged; after every step has_value_raw, the stored value's TypeId, its identity and payload pattern agree with the reference for all 15 slots, and the tracker's live set equals the reference's values (no leak, no early or double drop); after dropping the world nothing is alive; non-trivial = >= 1 mismatching call, >= 1 replace and >= 1 remove of a present key; distinct = history hash"
+        "histories (<= 40 steps) over insert / insert_by_id / remove / remove_by_id / entry().or_insert(_with) / has_value(_raw) / get_mut(_raw) / fetch, fetch_mut, try_fetch(_mut), try_fetch(_mut)_by_id / setup::<Read|WriteExpect|Option<Read>> / exec (Write<T>, and a hand-written SystemData that logs its setup and fetch calls: exec must be exactly setup then fetch, setup exactly setup, whether or not the data declares the resource and whether or not it exists) over 8 value types (zero-sized, 1 byte, 8 bytes, 24 bytes without drop glue, heap-owning, 512 bytes, 5000 bytes, 256-byte aligned) x 3 dynamic ids, 1/4 of the id-taking calls with a type argument that disagrees with the id; oracle: reference BTreeMap<(type, dynamic id), value id>; every result equal; a mismatching id-taking call panics and leaves map and live set unchanged; after every step has_value_raw, the stored value's TypeId, its identity and payload pattern agree with the reference for all 24 slots, and the tracker's live set equals the reference's values (no leak, no early or double drop); after dropping the world nothing is alive; non-trivial = >= 1 mismatching call, >= 1 replace and >= 1 remove of a present key; distinct = history hash"
     }
     fn stream_len(&self) -> usize {
         200
@@ -282,7 +317,17 @@ impl Prop for C09 {
                     1 => MapOp::SetupWriteExpect { t },
                     _ => MapOp::SetupOptionRead { t },
                 },
-                _ => MapOp::ExecWrite { t },
+                _ => match src.pick(4) {
+                    0 | 1 => MapOp::ExecWrite { t },
+                    2 => MapOp::ExecProbe {
+                        t,
+                        declared: src.chance(8, 16),
+                    },
+                    _ => MapOp::SetupProbe {
+                        t,
+                        declared: src.chance(8, 16),
+                    },
+                },
             };
             ops.push(op);
         }
@@ -301,6 +346,7 @@ impl Prop for C09 {
         let mut leaks_n = 0u64;
         let mut leaks: Leaks = BTreeMap::new();
         let mut leak_panics = 0u64;
+        let mut probes = 0u64;
         for (step, op) in ops.iter().enumerate() {
             let bad = |what: String| Fail::new(format!("step {} {:?}: {}", step, op, what));
             // ---- slots with a forgotten guard ------------------------------------------------
@@ -312,7 +358,9 @@ impl Prop for C09 {
                     MapOp::TryFetchById { t, kt, kd } if t == kt => Some(((*kt, *kd), 1)),
                     MapOp::TryFetchMutById { t, kt, kd } if t == kt => Some(((*kt, *kd), 2)),
                     MapOp::EntryOrInsert { t, .. } | MapOp::EntryOrInsertWith { t, .. } => Some(((*t, 0), 2)),
-                    MapOp::SetupRead { t } | MapOp::ExecWrite { t } => Some(((*t, 0), 2)),
+                    MapOp::ExecWrite { t } => Some(((*t, 0), 2)),
+                    // whether the default provider's setup borrows an existing slot is its own business
+                    MapOp::SetupRead { t } => Some(((*t, 0), 4)),
                     MapOp::Remove { t } | MapOp::GetMut { t } => Some(((*t, 0), 3)),
                     MapOp::GetMutRaw { kt, kd } => Some(((*kt, *kd), 3)),
                     MapOp::RemoveById { t, kt, kd } if t == kt => Some(((*kt, *kd), 3)),
@@ -324,6 +372,12 @@ impl Prop for C09 {
                         if need == 3 {
                             // removing (into_inner) or get_mut-ing a cell whose flag is set trips a debug
                             // assertion of the cell type itself: not part of any property, the op is skipped
+                            continue;
+                        }
+                        if need == 4 {
+                            let _ = outcome(|| with_wt!(slot.0, T, world.setup::<Read<T>>()));
+                            check_world_vs_model(&mut world, &model, &leaks, step)?;
+                            tracker_consistent(&model, step, 0)?;
                             continue;
                         }
                         let conflict = need == 2 || l == 2;
@@ -340,7 +394,6 @@ impl Prop for C09 {
                                 MapOp::TryFetchMutById { .. } => outcome(|| with_wt!(t, T, { world.try_fetch_mut_by_id::<T>(wrid(slot.0, slot.1)); })),
                                 MapOp::EntryOrInsert { .. } => outcome(|| with_wt!(t, T, { world.entry::<T>().or_insert(T::make(fresh)); })),
                                 MapOp::EntryOrInsertWith { .. } => outcome(|| with_wt!(t, T, { world.entry::<T>().or_insert_with(|| T::make(fresh)); })),
-                                MapOp::SetupRead { .. } => outcome(|| with_wt!(t, T, world.setup::<Read<T>>())),
                                 MapOp::ExecWrite { .. } => outcome(|| with_wt!(t, T, { world.exec(|d: Write<T>| d.id()); })),
                                 MapOp::LeakGuard { excl, .. } => outcome(|| with_wt!(t, T, {
                                     if *excl {
@@ -627,6 +680,50 @@ impl Prop for C09 {
                         }
                     }
                 }
+                MapOp::ExecProbe { t, declared } | MapOp::SetupProbe { t, declared } => {
+                    let is_exec = matches!(op, MapOp::ExecProbe { .. });
+                    PROBE_LOG.with(|l| l.borrow_mut().clear());
+                    let r = outcome(|| {
+                        with_wt!(t, T, {
+                            match (is_exec, declared) {
+                                (true, true) => world.exec(|d: Prober<T, true>| d.0),
+                                (true, false) => world.exec(|d: Prober<T, false>| d.0),
+                                (false, true) => {
+                                    world.setup::<Prober<T, true>>();
+                                    true
+                                }
+                                (false, false) => {
+                                    world.setup::<Prober<T, false>>();
+                                    true
+                                }
+                            }
+                        })
+                    });
+                    let present_at_fetch = r.map_err(|e| bad(format!("panicked: {}", e)))?;
+                    let log = PROBE_LOG.with(|l| l.borrow().clone());
+                    let want: &[u8] = if is_exec { &[1, 2] } else { &[1] };
+                    if log != want {
+                        return Err(bad(format!(
+                            "calls into the user's SystemData were {:?} (1 = setup, 2 = fetch), expected {:?}: {} is the data's setup{}",
+                            log,
+                            want,
+                            if is_exec { "exec" } else { "setup" },
+                            if is_exec { " followed by its fetch" } else { "" }
+                        )));
+                    }
+                    if !present_at_fetch {
+                        return Err(bad("the resource provided by the data's setup was not there at its fetch".into()));
+                    }
+                    if !model.contains_key(&(t, 0)) {
+                        match with_wt!(t, T, world.try_fetch::<T>().map(|g| g.id())) {
+                            Some(v) => {
+                                model.insert((t, 0), v);
+                            }
+                            None => return Err(bad("the resource inserted by the data's setup is not in the world".into())),
+                        }
+                    }
+                    probes += 1;
+                }
             }
             // inserting over a slot replaces its cell: the forgotten guard's borrow is gone with it
             match op {
@@ -652,6 +749,7 @@ impl Prop for C09 {
         st.class_n("replaced_value_with_panicking_destructor", bombs);
         st.class_n("replaced_slot_with_forgotten_guard", leaks_n);
         st.class_n("conflicting_ops_on_slot_with_forgotten_guard", leak_panics);
+        st.class_n("exec_or_setup_with_user_written_system_data", probes);
         st.class_n("mismatching_id_calls", mismatches);
         st.class_n("replaces", replaces);
         st.class_n("removes_of_present", removes);
@@ -765,7 +863,7 @@ macro_rules! named {
         }
     )*};
 }
-named!(Z, B1, W8, Big, Heap, Plain);
+named!(Z, B1, W8, Big, Heap, Plain, Huge, Aligned);
 
 struct HMetaS<'a>(shred::cell::AtomicRef<'a, dyn Named + 'static>);
 struct HMetaX<'a>(shred::cell::AtomicRefMut<'a, dyn Named + 'static>);
